@@ -31,9 +31,9 @@ RULE = ('one case = initial tree of a sandbox (install directory fresh or popula
         'files, a directory and a link pointing back, outside) + an archive (1..8 members of kinds regular / directory / '
         'symlink / hardlink / fifo; names and link targets relative, ..-laden or absolute; any order; gzip or plain) '
         'built with tarfile and extracted by the real untar_file. Streams: benign trees, benign + one hostile member, '
-        'link-then-file-through-link, hardlink-then-overwrite, links staying inside, link duplication, back-link replacement, kind '
-        'replacement, fully random; thorough adds every archive of one or two members over a small alphabet (5 names x '
-        '4 targets x 4 kinds: 50 + 2500 archives). Non-trivial = at least one member was extracted or refused for a reason other than '
+        'link-then-file-through-link, hardlink-then-overwrite, links staying inside, back slashes in names and targets (one odd component on POSIX), link duplication, back-link replacement, kind '
+        'replacement, fully random; thorough adds every archive of one or two members over a small alphabet (6 names x '
+        '5 targets x 4 kinds: 72 + 5184 archives). Non-trivial = at least one member was extracted or refused for a reason other than '
         'its mere kind; distinct = distinct (initial tree, member list, compression).')
 TRUSTED = ['CPython 3.12 tarfile (data_filter, extract, makelink fallbacks) and posixpath.realpath, and the POSIX '
            'semantics of mkdir/open/symlink/unlink/link/lstat: modelled in coq/Model/MUntar.v, validated only by this '
@@ -46,7 +46,8 @@ ASSUMPTIONS = ['the install directory path itself contains no symbolic link (unt
                'files already present in the install directory are owner-writable',
                'symlink chains nest less than 40 deep; member names / link targets carry at most %d ".." (sandbox '
                'safety bound of the harness, not of the theorems)' % MAX_DOTDOT,
-               'non-directory members do not end in "/" or "/."; names are valid UTF-8 without NUL']
+               'non-directory members do not end in "/" or "/."; names are valid UTF-8 without NUL',
+               'POSIX host: a back slash is an ordinary character of a file name (components are split on "/" only)']
 EXHAUSTIVE = {'quick': False, 'thorough': False}
 
 # ---------------------------------------------------------------------------------------- initial trees
@@ -66,7 +67,9 @@ def _chain():
 
 
 def _count_dotdot(s):
-    return s.split('/').count('..')
+    # a back slash is an ordinary character of a POSIX name, but code under test may (wrongly) treat it as a
+    # separator: the safety bound counts '..' under both readings
+    return s.replace('\\', '/').split('/').count('..')
 
 
 def _members_safe(members):
@@ -74,7 +77,7 @@ def _members_safe(members):
         if _count_dotdot(m['name']) > MAX_DOTDOT or _count_dotdot(m.get('target', '')) > MAX_DOTDOT:
             return False
         for s in (m['name'], m.get('target', '')):
-            if s.startswith('/'):
+            if s.startswith(('/', '\\')):
                 return False            # absolute paths must be written with the $P / $T placeholders
             if '$P' in s and not s.startswith('$P/'):
                 return False
@@ -94,6 +97,10 @@ T_PLAIN = ['f.txt', 'a', 'a/f.txt', '.', 'l', 'k', 'nowhere', 'pre/old.txt', 'g.
 T_DD = ['../f.txt', '../sentinel.txt', '../outdir', '../../outdir', 'a/../..', 'sub/../f.txt', '../install/f.txt',
         '../outdir/keep.txt', 'a/../../sentinel.txt', '../nonexist', '../../nonexist', 'nowhere/..', '..']
 T_ABS = ['$P/outdir', '$P/sentinel.txt', '$P/install/f.txt', '$P/install', '$P/outdir/keep.txt']
+# names / targets spelled with back slashes: ONE odd component each on POSIX (never a separator, never '..')
+N_BS = ['..\\escaped.txt', 'a\\..\\..\\x.txt', 'dir\\file.txt', 'a/..\\b.txt', 'd\\', 'a\\b\\c.txt', '.\\f.txt',
+        'sub/..\\..\\g.txt', 'l\\x.txt', '..\\sentinel.txt', 'pre\\old.txt', '..\\outdir\\keep.txt', 'a/b\\']
+T_BS = ['..\\outdir', 'a\\..\\..\\sentinel.txt', 'dir\\f.txt', '..\\sentinel.txt', 'f.txt\\', 'a/..\\..', '..\\escaped.txt']
 N_ABS = ['$P/abs/x.txt', '$P/sentinel.txt', '$P/install/f.txt', '$P/outdir/new.txt', '$P/newabs/y.txt']   # deep: costly in Coq
 N_ABS_SHALLOW = ['$T/ABS/x.txt', '$T/ABS/sub/y.txt', '$T/ABS/f.txt']
 MODES = [0o644, 0o444, 0o600, 0o755, 0o400, 0o000, 0o666, 0o4755]
@@ -149,6 +156,8 @@ def _hard(name, target):
 
 
 def _target(rng):
+    if rng.random() < 0.05:
+        return rng.choice(T_BS)
     return rng.choice(rng.choice([T_PLAIN, T_PLAIN, T_DD, T_DD, T_ABS]))
 
 
@@ -206,7 +215,7 @@ def _random_member(rng):
     k = rng.choice(['reg', 'reg', 'dir', 'sym', 'sym', 'hard', 'hard'])
     if rng.random() < 0.01:
         return _abs_member(rng)
-    nm = rng.choice([_rel_name, _rel_name, _rel_name, _dd_name])(rng)
+    nm = rng.choice([_rel_name, _rel_name, _rel_name, _dd_name])(rng) if rng.random() < 0.93 else rng.choice(N_BS)
     if k == 'reg':
         return _reg(rng, _decorate(rng, nm))
     if k == 'dir':
@@ -230,8 +239,25 @@ def _inside_links(rng):
     return ms
 
 
+def _backslash(rng):
+    """back slashes in member names and link targets, every member kind; then members reusing those names"""
+    ms = []
+    for _ in range(rng.randint(1, 3)):
+        n = rng.choice(N_BS)
+        ms.append(rng.choice([_reg(rng, n), _reg(rng, n), {'k': 'dir', 'name': n}, _sym(n, rng.choice(T_BS + T_PLAIN)),
+                              _hard(n, rng.choice(T_BS + ['f.txt'])), _sym(_rel_name(rng), rng.choice(T_BS)),
+                              _hard(_rel_name(rng), rng.choice(T_BS))]))
+    if rng.random() < 0.5:
+        ms.insert(rng.randint(0, len(ms)), _reg(rng, rng.choice(['f.txt', 'a/f.txt', 'dir/file.txt'])))
+    if rng.random() < 0.3:
+        ms.append(_reg(rng, rng.choice(N_BS)))
+    return ms
+
+
 def _scenario(rng):
-    r = rng.randrange(23)
+    r = rng.randrange(25)
+    if r >= 23:
+        return 'backslash', _backslash(rng)
     if r >= 20:
         return 'inside-links', _inside_links(rng)
     if r < 6:
@@ -282,8 +308,8 @@ def _scenario(rng):
 
 def _small_scope():
     """every archive of one or two members over a small alphabet of kinds, names and link targets (thorough tier)"""
-    names = ['f.txt', 'a/f.txt', '../f.txt', 'l', 'l/x.txt']
-    targets = ['f.txt', '../outdir', '.', '$P/outdir']
+    names = ['f.txt', 'a/f.txt', '../f.txt', 'l', 'l/x.txt', '..\\f.txt']
+    targets = ['f.txt', '../outdir', '.', '$P/outdir', '..\\outdir']
     singles = []
     for n in names:
         singles.append({'k': 'reg', 'name': n, 'data': 'x', 'mode': 0o644})
